@@ -6,7 +6,7 @@ From Coq Require Import Floats Reals List Lia Lra.
 From ADV Require Import Base.Num C05.Model C05.Spec C05.ProofsBase C05.ProofsChol C05.ProofsLdl
                         C05.ProofsHouse C05.ProofsGivens C05.Refuted
                         C05.ProofsHouse2 C05.ProofsBlock C05.ProofsTrace C05.ProofsHess C05.ProofsGS
-                        C05.ProofsLdl2 C05.ProofsChol2 C05.ProofsTridiag C05.ProofsBidiag C05.ProofsTridiag2 C05.ProofsOpts C05.ProofsBand.
+                        C05.ProofsLdl2 C05.ProofsChol2 C05.ProofsTridiag C05.ProofsBidiag C05.ProofsTridiag2 C05.ProofsOpts C05.ProofsBand C05.CorrTrace C05.ProofsTraceTie C05.Corr32.
 Import ListNotations.
 Open Scope R_scope.
 
@@ -387,9 +387,15 @@ Proof. exact C05.ProofsOpts.hessenberg_H_independent_of_computeU. Qed.
       accumulators are invariant; Givens rotations with c^2+s^2 = 1 and reflectors with
       beta = 0 or beta nu^T nu = 2 are such steps, and the model's givens_left/givens_right
       (resp. house_left/house_right, section 4) are the products with these matrices.
-      UNTIED to the Go iteration: the step parameters of a run are not logged (that would
-      need edits of existing files); the per-run decision for the iterative routines stays
-      the exact residual checker C05.Resid. *)
+      TIE (round 3, no edit of existing /repo files): the harness re-derives the step trace by a
+      lock-step copy of the control skeleton of qrAlgorithm (symmetric and Francis) and svd that
+      calls the SAME exported primitives (givensRotation.Run / Apply.., householder.Run / Apply..) on its
+      own copies and must end in factors bit-equal to the library's; C05.CorrTrace.tcheck then
+      replays the logged steps on the float models of the primitives from the input (again
+      bit-equal final factors, every (c,s) / (beta,nu) recomputed from the replayed state) and
+      checks every logged parameter in exact dyadic arithmetic (section 8b).  What stays per run:
+      convergence, deflation decisions, sorting and sign normalisation (exact residual checker
+      C05.Resid), and the accumulation of the per-step defects (each bounded, section 8b). *)
 Theorem qr_trace_invariant :
   forall (n : nat) (l : list step) (H U : fmatR),
   Forall (qr_valid n) l ->
@@ -453,6 +459,62 @@ Theorem concrete_trace_invariant_svd :
   (orth m (sU st) -> orth m (sU st')) /\
   (orth n (sV st) -> orth n (sV st')).
 Proof. exact concrete_svd_trace_invariant. Qed.
+
+(* 8b. What the per-step checks of C05.CorrTrace buy (f2R = exact real value of a float).
+      rot_ok / house_ok are decided in exact dyadic arithmetic and mean the real inequalities
+      |c^2+s^2-1| <= 2^-50 (= 8u) resp. beta = 0 or |beta nu^T nu - 2| <= tol; with tolerance 0
+      the logged steps are valid steps of the trace machine (so the invariant of section 8
+      applies verbatim); with the tolerance, the normalised pair (c,s)/r is a valid step with
+      |r^2 - 1| <= 8u, and the Gram matrix of the logged rotation / reflector differs from I by
+      exactly (c^2+s^2-1) on two diagonal entries resp. beta (beta v^T v - 2) v_i v_j. *)
+Theorem logged_rotation_check_sound :
+  forall c s : float,
+  C05.CorrTrace.rot_ok c s = true -> Rabs (f2R c * f2R c + f2R s * f2R s - 1) <= / 2 ^ 50.
+Proof. exact rot_ok_sound. Qed.
+
+Theorem logged_rotation_normalised_is_valid_step :
+  forall (n i k : nat) (c s : float),
+  C05.CorrTrace.rot_ok c s = true -> i <> k -> (i < n)%nat -> (k < n)%nat ->
+  let r := sqrt (f2R c * f2R c + f2R s * f2R s) in
+  cvalid n (GStep (f2R c / r) (f2R s / r) i k) /\ Rabs (r * r - 1) <= / 2 ^ 50.
+Proof. exact rot_ok_normalised. Qed.
+
+Theorem logged_reflector_check_sound :
+  forall (tol : C05.Resid.dy) (beta : float) (nu : list float),
+  C05.CorrTrace.house_ok_tol tol beta nu = true ->
+  f2R beta = 0 \/ Rabs (f2R beta * dot (length nu) (map f2R nu) (map f2R nu) - 2) <= dR tol.
+Proof. exact house_ok_tol_sound. Qed.
+
+Theorem exact_logged_rotations_satisfy_trace_invariant :
+  forall (n : nat) (l : list (float * float * nat * nat)) (H U : fmatR),
+  forallb (rot_exact n) l = true ->
+  let st' := qr_run n (qr_steps_of (map rot_step l)) (H, U) in
+  meq n n (uhut n st') (uhut n (H, U)) /\
+  meq n n (mmul n (snd st') (tr (snd st'))) (mmul n U (tr U)) /\
+  (orth n U -> orth n (snd st')).
+Proof. exact all_exact_trace_invariant. Qed.
+
+Theorem rotation_gram_defect :
+  forall (c s eps : R) (i k n a b : nat),
+  Rabs (c * c + s * s - 1) <= eps ->
+  i <> k -> (i < n)%nat -> (k < n)%nat -> (a < n)%nat -> (b < n)%nat ->
+  Rabs (mmul n (tr (Gmat c s i k)) (Gmat c s i k) a b - delta a b) <= eps.
+Proof. exact Gmat_gram_close. Qed.
+
+Theorem reflector_gram_defect :
+  forall (n : nat) (beta : R) (v : list R) (i j : nat),
+  (i < n)%nat -> (j < n)%nat ->
+  sum_n (fun k => refl beta v k i * refl beta v k j) n =
+  delta i j + beta * (beta * dot n v v - 2) * (V v i * V v j).
+Proof. exact refl_gram_defect. Qed.
+
+(* 1b. Aliasing finding F-FPD-INPLACE (all element types; witnessed on the binary32 replay): with
+      InSitu.L aliasing the input the forced-PD routine reads A(j,j) after L(j,j) = 1 was written.
+      The as-coded aliased model differs from the routine on fresh buffers already on [[4]]. *)
+Theorem forcepd_inplace_aliasing_refuted :
+  C05.Corr32.fpd32 [[4%float]] = Some ([[1%float]], [[4%float]]) /\
+  C05.Corr32.fpd32_inplace [[4%float]] = Some ([[1%float]], [[1%float]]).
+Proof. exact C05.Corr32.fpd32_inplace_differs. Qed.
 
 (* the hypotheses are satisfiable by a non-trivial instance *)
 Example cholesky_hyps_satisfiable :
